@@ -256,7 +256,8 @@ def one_mode(job) -> Dict[str, Any]:
         wt.start()
 
         def runner():
-            fut = master.enqueue(nodes, data=NoDataType(), context=ContextType(dict(PROGRAM_CTX.get(prog, {}))), return_future=True)
+            # (the payload context carries a key of the CALLER's that happens to be called "job_id", e.g. a LIMS number)
+            fut = master.enqueue(nodes, data=NoDataType(), context=ContextType(dict(PROGRAM_CTX.get(prog, {}), job_id="lims-0042")), return_future=True)
             try:
                 fut.result(timeout=30)
             except TimeoutError:
